@@ -48,6 +48,13 @@ pub struct Plan {
     pub key_scope_override: Option<(String, String, String)>,
     /// sign with this 32-byte signing key instead of a derived one
     pub raw_key_override: Option<[u8; 32]>,
+    /// an ordinary `Date` header carried next to the X-Amz-Date header / parameter (what an HTTP
+    /// stack or a proxy adds): (value as sent, whether the client lists it in SignedHeaders).
+    /// Ignored when `use_date_header` makes `Date` the time source.
+    pub extra_date: Option<(Vec<u8>, bool)>,
+    /// scope text the client puts into its string-to-sign when that is not the text after the
+    /// first '/' of the credential it sends
+    pub sts_scope_override: Option<String>,
 }
 
 pub const SEG_POOL: [&[u8]; 40] = [
@@ -76,8 +83,13 @@ pub const VALUE_POOL: [&[u8]; 28] = [
     b" ", b" v", b"v ", b"\t", b"\xff\xfe", b"%", b"%zz", b"%2B", b"\xc2\xa0", b"==", b"&&", b"\x00",
 ];
 
-pub const REGIONS: [&str; 7] = ["us-east-1", "eu-west-1", "us-east-10", "local", "US-EAST-1", "us east 1", "us-east-1a"];
-pub const SERVICES: [&str; 7] = ["service", "s3", "iam", "svc", "Service", "s 3", "services"];
+pub const REGIONS: [&str; 16] = [
+    "us-east-1", "eu-west-1", "us-east-10", "local", "US-EAST-1", "us east 1", "us-east-1a",
+    // names that carry a meaning elsewhere in the ecosystem (endpoint pseudo-regions, partitions,
+    // the global pseudo-region): all of them opaque strings here
+    "fips-us-gov-west-1", "us-gov-west-1-fips", "us-east-1-fips", "aws-global", "cn-north-1", "us-iso-east-1", "eu-central-2", "us-gov-west-1", "fips-",
+];
+pub const SERVICES: [&str; 14] = ["service", "s3", "iam", "svc", "Service", "s 3", "services", "sts", "execute-api", "es", "dynamodb", "monitoring", "s3-fips", "aws4_request"];
 
 /// 2015-08-30T12:36:00Z, the date of the AWS test suite
 pub const T0: i64 = 1440938160;
@@ -105,12 +117,67 @@ pub fn interesting_times() -> Vec<i64> {
         d(9999, 12, 30) * 86400 + 86399 - 900, // late in year 9999 (a day of room for positive offsets)
         d(1000, 1, 1) * 86400 + 900,          // first four-digit year without leading zero
         d(999, 12, 31) * 86400 + 43200,       // a year that needs zero padding
+        // days whose ISO week-numbering year is not their calendar year (and their neighbours)
+        d(2016, 1, 1) * 86400 + 43200,
+        d(2016, 1, 3) * 86400 + 86399,
+        d(2018, 12, 31) * 86400 + 85800,
+        d(2019, 12, 30) * 86400 + 60,
+        d(2021, 1, 1) * 86400 + 1,
+        d(2021, 1, 3) * 86400 + 43200,
+        d(2024, 12, 30) * 86400 + 43200,
+        d(2025, 12, 29) * 86400,
+        d(2027, 1, 2) * 86400 + 7200,
+        d(2020, 12, 31) * 86400 + 86399,      // day 366 of a leap year
+        d(2010, 1, 3) * 86400 + 100,          // week 53 of the year before
+        // far past / far future (the server clock follows the request)
+        d(1700, 1, 1) * 86400,
+        d(1723, 5, 21) * 86400 + 3600,
+        d(2307, 12, 10) * 86400 + 3600,
+        d(1, 1, 2) * 86400,
+    ]
+}
+
+/// Days within three days of 1 January whose ISO week-numbering year differs from the calendar year.
+pub fn iso_week_year_days() -> Vec<(i64, u32, u32)> {
+    vec![
+        (2016, 1, 1), (2016, 1, 2), (2016, 1, 3), (2017, 1, 1), (2018, 12, 31), (2019, 12, 30), (2019, 12, 31), (2021, 1, 1), (2021, 1, 2), (2021, 1, 3),
+        (2022, 1, 1), (2022, 1, 2), (2023, 1, 1), (2024, 12, 30), (2024, 12, 31), (2025, 12, 29), (2025, 12, 30), (2025, 12, 31), (2027, 1, 1), (2027, 1, 3),
+        (2010, 1, 1), (2012, 1, 1), (2000, 1, 1), (2000, 1, 2), (1999, 1, 3), (2036, 12, 29), (2037, 1, 1), (2038, 1, 3), (9999, 1, 1), (1000, 1, 5),
+        (1970, 1, 2), (2032, 1, 4),
+    ]
+}
+
+/// RFC 1123 rendering (`Sun, 30 Aug 2015 12:36:00 GMT`) of a Unix time: what HTTP stacks put into `Date`.
+pub fn rfc1123(unix_secs: i64) -> String {
+    let days = unix_secs.div_euclid(86400);
+    let sod = unix_secs.rem_euclid(86400);
+    let (y, m, d) = signer::civil_from_days(days);
+    let wd = ["Thu", "Fri", "Sat", "Sun", "Mon", "Tue", "Wed"][days.rem_euclid(7) as usize];
+    let mn = ["Jan", "Feb", "Mar", "Apr", "May", "Jun", "Jul", "Aug", "Sep", "Oct", "Nov", "Dec"][(m - 1) as usize];
+    format!("{}, {:02} {} {:04} {:02}:{:02}:{:02} GMT", wd, d, mn, y, sod / 3600, (sod / 60) % 60, sod % 60)
+}
+
+/// Values of an ordinary `Date` header next to the authoritative X-Amz-Date: the same instant in
+/// RFC 1123 form, other instants in ISO form (inside and far outside the window), texts that are no date.
+pub fn extra_date_values(t: i64) -> Vec<Vec<u8>> {
+    vec![
+        rfc1123(t).into_bytes(),
+        rfc1123(t - 5).into_bytes(),
+        signer::compact_utc(t - 90).into_bytes(),
+        signer::compact_utc(t - 5760).into_bytes(),
+        signer::compact_utc(t + 86400 * 3).into_bytes(),
+        signer::compact_utc(t).into_bytes(),
+        b"".to_vec(),
+        b"yesterday".to_vec(),
+        b"20150830".to_vec(),
+        b"Sunday, 30-Aug-15 12:36:00 GMT".to_vec(),
     ]
 }
 
 pub fn random_plan(rng: &mut Rng) -> Plan {
-    let s3 = rng.chance(1, 4);
-    let fold = !s3 && rng.chance(1, 4);
+    // the two options are independent switches: all four combinations occur
+    let s3 = rng.chance(1, 3);
+    let fold = rng.chance(1, 3);
     let form = fold && rng.chance(3, 4) || rng.chance(1, 12);
     let method = rng.pick(&["GET", "POST", "PUT", "DELETE", "HEAD", "PATCH", "OPTIONS"][..]).to_string();
     let nseg = rng.below(5) as usize;
@@ -167,7 +234,7 @@ pub fn random_plan(rng: &mut Rng) -> Plan {
     } else if rng.chance(1, 2) {
         headers.push(("content-type".to_string(), rng.pick(&[&b"application/json"[..], b"text/plain; charset=utf-8", b"application/x-amz-json-1.0"][..]).to_vec()));
     }
-    let extra: [(&str, &[u8]); 22] = [
+    let extra: [(&str, &[u8]); 26] = [
         ("x-amz-meta-a", b""),
         ("x-amz-target", b"Svc.Op"),
         ("x-amz-meta-a", b"one  two   three"),
@@ -191,10 +258,14 @@ pub fn random_plan(rng: &mut Rng) -> Plan {
         ("x-amz-content-sha256", b"UNSIGNED-PAYLOAD"),
         ("x-amz-meta-", b"prefix only"),
         ("x-amz", b"short"),
+        ("x-amz-content-sha256", b"STREAMING-AWS4-HMAC-SHA256-PAYLOAD"),
+        ("x-amz-decoded-content-length", b"66560"),
+        ("x-amz-user-agent", b"aws-sdk-js/2.0"),
+        ("amz-sdk-invocation-id", b"5c7a0a5f-0a3c-4c1e-9a55-7d1a8b3c2d10"),
     ];
     // headers of the transport / representation kind that real clients and proxies add: none is
     // consulted by SigV4, all must come back exactly as sent (signed or not, repeated or not)
-    let transport: [(&str, &[u8]); 12] = [
+    let transport: [(&str, &[u8]); 18] = [
         ("connection", b"keep-alive"),
         ("accept-encoding", b"gzip, deflate"),
         ("accept-encoding", b"br"),
@@ -207,6 +278,12 @@ pub fn random_plan(rng: &mut Rng) -> Plan {
         ("x-forwarded-for", b"10.0.0.1, 10.0.0.2"),
         ("cookie", b"a=1; b=2"),
         ("cookie", b"c=3"),
+        ("x-amzn-trace-id", b"Root=1-5759e988-bd862e3fe1be46a994272793;Sampled=1"),
+        ("x-forwarded-proto", b"https"),
+        ("x-forwarded-port", b"443"),
+        ("x-forwarded-host", b"example.amazonaws.com"),
+        ("via", b"1.1 proxy.example (squid)"),
+        ("forwarded", b"for=10.0.0.1;proto=https"),
     ];
     for (n, v) in transport.iter() {
         if rng.chance(1, 8) {
@@ -214,7 +291,7 @@ pub fn random_plan(rng: &mut Rng) -> Plan {
         }
     }
     for (n, v) in extra.iter() {
-        if rng.chance(1, 4) {
+        if rng.chance(1, 4) && !(*n == "x-amz-content-sha256" && headers.iter().any(|h| h.0 == *n)) {
             headers.push((n.to_string(), v.to_vec()));
         }
     }
@@ -226,7 +303,8 @@ pub fn random_plan(rng: &mut Rng) -> Plan {
     let body: Vec<u8> = if form {
         vec![]
     } else {
-        let n = *rng.pick(&[0u64, 0, 1, 7, 64, 200][..]);
+        // (55 / 56 / 63 / 64 / 119 bytes sit on the padding boundaries of the hash)
+        let n = *rng.pick(&[0u64, 0, 0, 1, 7, 64, 200, 55, 56, 63, 119][..]);
         (0..n).map(|_| rng.below(256) as u8).collect()
     };
     if (form || !body.is_empty()) && rng.chance(1, 2) {
@@ -257,6 +335,12 @@ pub fn random_plan(rng: &mut Rng) -> Plan {
     let secret: Vec<u8> = (0..secret_len).map(|i| b"wJalrXUtnFEMI/K7MDENG+bPxRfiCYEXAMPLEKEY"[(i * 7 + secret_len) % 40]).collect();
     let times = interesting_times();
     let t = if rng.chance(1, 2) { *rng.pick(&times[..]) } else { rng.range(86400 * 366, 4102444800) };
+    let extra_date = if rng.chance(1, 5) {
+        let vals = extra_date_values(t);
+        Some((rng.pick(&vals[..]).clone(), rng.chance(1, 2)))
+    } else {
+        None
+    };
     Plan {
         method,
         segments,
@@ -283,7 +367,71 @@ pub fn random_plan(rng: &mut Rng) -> Plan {
         credential_override: None,
         key_scope_override: None,
         raw_key_override: None,
+        extra_date,
+        sts_scope_override: None,
     }
+}
+
+/// A random plan whose feature axes (both options, carrier, form body, token, extra `Date`
+/// header, time source) are forced from the bits of a counter, so that a short run covers the
+/// product of the features and not a diagonal of it.
+pub fn covering_plan(rng: &mut Rng, i: usize) -> Plan {
+    let mut p = random_plan(rng);
+    // the four main axes are enumerated by the counter itself (every 16 consecutive requests carry
+    // their full product); the others come from a mixing of it
+    let k = (i / 16).wrapping_mul(0x9E37_79B1).wrapping_add(i.wrapping_mul(0x85EB_CA6B)) >> 5;
+    let bit = |n: usize| (k >> n) & 1 == 1;
+    p.s3 = i & 1 == 1;
+    p.fold = (i >> 1) & 1 == 1;
+    p.query_carrier = (i >> 2) & 1 == 1;
+    let want_form = (i >> 3) & 1 == 1;
+    if want_form && !p.form {
+        p.form = true;
+        p.body = vec![];
+        p.headers.retain(|h| h.0 != "content-type" && h.0 != "content-length" && h.0 != "content-md5" && h.0 != "x-amz-content-sha256");
+        p.signed.retain(|h| h != "content-length" && h != "content-md5" && h != "x-amz-content-sha256");
+        p.headers.push(("content-type".to_string(), rng.pick(&[&b"application/x-www-form-urlencoded"[..], b"application/x-www-form-urlencoded; charset=utf-8", b"application/x-www-form-urlencoded;charset=UTF-8"][..]).to_vec()));
+        if !p.signed.contains(&"content-type".to_string()) {
+            p.signed.push("content-type".to_string());
+        }
+        let n = 1 + rng.below(4);
+        p.body_query = (0..n).map(|_| (rng.pick(&NAME_POOL[..]).to_vec(), rng.pick(&VALUE_POOL[..]).to_vec())).collect();
+        if !p.url_query.is_empty() && bit(5) {
+            let k = rng.below(p.url_query.len() as u64) as usize;
+            p.body_query.push((p.url_query[k].0.clone(), b"from body".to_vec()));
+        }
+        if bit(6) {
+            let len = form_encode(&p.body_query).len();
+            p.headers.push(("content-length".to_string(), len.to_string().into_bytes()));
+            if bit(7) {
+                p.signed.push("content-length".to_string());
+            }
+        }
+    } else if !want_form && p.form {
+        p.form = false;
+        p.body_query = vec![];
+        p.headers.retain(|h| h.0 != "content-type" && h.0 != "content-length" && h.0 != "content-md5" && h.0 != "x-amz-content-sha256");
+        p.signed.retain(|h| h != "content-type" && h != "content-length" && h != "content-md5" && h != "x-amz-content-sha256");
+    }
+    if !p.s3 {
+        p.segments.retain(|s| !s.is_empty() && s != b"." && s != b"..");
+        if p.segments.is_empty() {
+            p.trailing_slash = false;
+        }
+    }
+    if bit(8) != p.token.is_some() {
+        p.token = if bit(8) { Some(rng.pick(&[&b"tok"[..], b"AQoDYXdzEPT//////////wEXAMPLE+/=", b"t t", b"TOK", b"%41"][..]).to_vec()) } else { None };
+    }
+    p.use_date_header = !p.query_carrier && (k >> 9) % 5 == 0;
+    match (k >> 12) % 4 {
+        0 => {
+            let vals = extra_date_values(p.t);
+            p.extra_date = Some((vals[(k >> 14) % vals.len()].clone(), bit(11)));
+        }
+        1 => p.extra_date = None,
+        _ => {}
+    }
+    p
 }
 
 /// How the request is written on the wire.
@@ -439,6 +587,21 @@ pub fn build(p: &Plan, sp: &Spelling, rng: &mut Rng, now_offset_ns: i128) -> Bui
             plan.headers.push(("x-amz-date".to_string(), amz_date.as_bytes().to_vec()));
             plan.signed.push("x-amz-date".to_string());
         }
+    }
+    if !(p.use_date_header && !p.query_carrier) {
+        if let Some((v, signed)) = &p.extra_date {
+            // an ordinary header: before or after the authoritative one
+            if rng.chance(1, 2) {
+                plan.headers.insert(0, ("date".to_string(), v.clone()));
+            } else {
+                plan.headers.push(("date".to_string(), v.clone()));
+            }
+            if *signed {
+                plan.signed.push("date".to_string());
+            }
+        }
+    }
+    if !p.query_carrier {
         if let Some(tok) = &p.token {
             plan.headers.push(("x-amz-security-token".to_string(), tok.clone()));
             plan.signed.push("x-amz-security-token".to_string());
@@ -460,6 +623,7 @@ pub fn build(p: &Plan, sp: &Spelling, rng: &mut Rng, now_offset_ns: i128) -> Bui
     let logical = logical_of(&plan, &auth_query);
     // the client signs for the scope it names (everything after the first '/' of the credential)
     let named_scope = credential.split_once('/').map(|x| x.1.to_string()).unwrap_or_default();
+    let sts_scope = p.sts_scope_override.clone().unwrap_or(named_scope.clone());
     let sp_parts: Vec<&str> = named_scope.split('/').collect();
     let (kd, kr, ks) = match &p.key_scope_override {
         Some((a, b, c)) => (a.as_str(), b.as_str(), c.as_str()),
@@ -472,8 +636,8 @@ pub fn build(p: &Plan, sp: &Spelling, rng: &mut Rng, now_offset_ns: i128) -> Bui
         }
     };
     let signed = match &p.raw_key_override {
-        Some(k) => signer::sign_with_key(&logical, k, p.t, &named_scope),
-        None => signer::sign_scoped(&logical, &p.secret, p.t, &named_scope, kd, kr, ks),
+        Some(k) => signer::sign_with_key(&logical, k, p.t, &sts_scope),
+        None => signer::sign_scoped(&logical, &p.secret, p.t, &sts_scope, kd, kr, ks),
     };
 
     // ---- wire spelling
